@@ -8,7 +8,7 @@ from vk import refmodel as rm
 
 ID = 'C16'
 LEVEL = 'exploration'
-RULE = ('Hypothesis draws configuration and long histories with up to 5 sessions: accepted and '
+RULE = ('Hypothesis draws configuration and long histories with up to 5 (and a second profile with up to 12) sessions: accepted and '
         'rejected opens, closes by every cause, clients vanishing at every point (mid-poll, '
         'mid-upgrade, mid-handshake), application calls send / get_session / save_session / '
         'session() / transport() with live, dead, rejected and foreign ids interleaved, the clock '
